@@ -82,6 +82,10 @@ func VerifyFunction(p *Program, name string, opt Options) FnReport {
 			return rep
 		}
 	}
+	for _, ul := range fc.unboundLoops {
+		rep.Err = fmt.Sprintf("bind: no loop carries the variable %q named by a loop contract", ul)
+		return rep
+	}
 	for _, ca := range cs.CallAsserts {
 		if !fc.usedCallAssert[ca.Clause.Label+ca.Clause.Text] {
 			rep.Err = fmt.Sprintf("bind: assert@call(%s#%d) matches no call site", ca.Callee, ca.Ord)
